@@ -249,8 +249,10 @@ fn get_swap_transactions<C: ContentAddrStore>(state: &UnsealedState<C>) -> Vec<T
             (tx.kind == TxKind::Swap).then_some(())?; // only swap transactions are swap requests
             (!tx.outputs.is_empty()).then_some(())?; // ensure not empty
             state.coins.get_coin(tx.output_coinid(0))?; // ensure that first output is unspent
+            (tx.outputs[0].value.0 > 0).then_some(())?; // a zero-valued request swaps nothing
             let pool_key = canonical_pool_key(&tx.data)?; // ensure that data contains a pool key
-            state.pools.get(&pool_key)?; // ensure that pool key points to a valid pool
+            let pool_state = state.pools.get(&pool_key)?; // ensure that pool key points to a valid pool
+            (pool_state.lefts > 0 && pool_state.rights > 0).then_some(())?; // an emptied pool has no price
             (tx.outputs[0].denom == pool_key.left() || tx.outputs[0].denom == pool_key.right())
                 .then_some(())?; // ensure that the first output is either left or right
             Some(tx)
@@ -352,6 +354,8 @@ fn get_deposit_transactions<C: ContentAddrStore>(state: &UnsealedState<C>) -> Ve
         .filter_map(|tx| {
             (tx.kind == TxKind::LiqDeposit
                 && tx.outputs.len() >= 2
+                && tx.outputs[0].value.0 > 0
+                && tx.outputs[1].value.0 > 0
                 && state.coins.get_coin(tx.output_coinid(0)).is_some()
                 && state.coins.get_coin(tx.output_coinid(1)).is_some())
             .then_some(())?;
@@ -434,6 +438,7 @@ fn get_withdrawal_transactions<C: ContentAddrStore>(state: &UnsealedState<C>) ->
         .filter_map(|tx| {
             (tx.kind == TxKind::LiqWithdraw
                 && tx.outputs.len() == 1
+                && tx.outputs[0].value.0 > 0
                 && state.coins.get_coin(tx.output_coinid(0)).is_some())
             .then_some(())?;
             let pool_key = canonical_pool_key(&tx.data)?;
